@@ -16,3 +16,8 @@ Definition c_StructEnd := 11.
 Definition c_ZeroTag := 12.
 Definition c_SimpleList := 13.
 Definition c_maxSkipDepth := 512.
+Definition c_c01_TARSVERSION := (1)%Z.
+Definition c_c01_TARSNORMAL := (0)%Z.
+Definition c_c01_TARSONEWAY := (1)%Z.
+Definition c_c01_TARSSERVERSUCCESS := (0)%Z.
+Definition c_c01_MaxPackageLength := 10485760.
